@@ -64,6 +64,8 @@ def gen_lib(rng, flavor):
     for k in range(n):
         lower = [j for j in range(n) if rank[j] < rank[k]]
         cell = {"name": "c%d" % k, "abs": None, "layout": None}
+        if k == 0 and rng.random() < 0.08:
+            cell["name"] = rng.choice(["", "a b", "q\"uote", "c.0/x"])      # still unique
         kind = rng.random()
         if kind < 0.85 or lower:
             ox, oy = gen_outline(rng, big=rng.random() < 0.05)
@@ -409,7 +411,7 @@ def gen_cases(chk):
         c["kind"] = kind
         cases.append(c)
         dist[kind] = dist.get(kind, 0) + 1
-    mult = 1 if quick else 25
+    mult = 1 if quick else 10
     for _ in range(700 * mult):
         add("rt_ok", gen_lib(rng, "ok"))
     for fl, n in (("cyclic", 120), ("rel", 60), ("bad_outline", 120), ("big_usize", 80), ("dup_names", 80),
@@ -417,7 +419,7 @@ def gen_cases(chk):
         for _ in range(n * mult):
             add("rt_" + fl, gen_lib(rng, fl))
     # protobuf messages: every single removal on each base message
-    nbase = 45 if quick else 1500
+    nbase = 45 if quick else 450
     for _ in range(nbase):
         base = gen_plib(rng)
         add("imp_intact", {"op": "imp", "plib": base, "site": []})
@@ -461,7 +463,7 @@ def evaluate(chk, cases, tag):
             out[i] = (forced, r, 0)
         else:
             items.append(it); idx.append(i)
-    codes = coq_eval_lists(HDR, items, chk.rundir, tag, shard=max(60, len(items) // (NCPU * 2) + 1))
+    codes = coq_eval_lists(HDR, items, chk.rundir, tag, shard=min(250, max(60, len(items) // (NCPU * 2) + 1)))   # small shards: coqc memory grows with the file
     for i, s in zip(idx, codes):
         m = re.match(r"^\(\s*(-?\d+)\s*,\s*(-?\d+)\s*\)$", s.strip())
         if not m:
